@@ -438,3 +438,14 @@ func (p *Part) NodeWrite(cmd redcon.Command) *Future {
 
 // Store gives direct access to the rockredis store of a partition.
 func (p *Part) Store() *node.KVStore { return p.KV.VerifStore() }
+
+// ResetProgress moves the apply cursor (restart from a snapshot at that index).
+func (p *Part) ResetProgress(index uint64) { p.prog.Reset(index, 1) }
+
+// ReplayTail re-applies entries of the own log after a restart: all of them are "replaying".
+func (p *Part) ReplayTail(ents []pb.Entry) {
+	if len(ents) == 0 {
+		return
+	}
+	p.apply(ents, ents[len(ents)-1].Index)
+}
